@@ -106,15 +106,23 @@ pub(crate) fn unbond(
             BOND.save(deps.storage, (&info.sender, &denom), &unbond)?;
         }
 
-        // record the unbonding
+        // record the unbonding. Unbonding the same denom again in the same block adds to the pending
+        // record of that block instead of replacing it.
+        let mut pending_unbond = UNBOND
+            .may_load(deps.storage, (&info.sender, &denom, timestamp.nanos()))?
+            .unwrap_or(Bond {
+                asset: Asset {
+                    amount: Uint128::zero(),
+                    ..asset.clone()
+                },
+                weight: Uint128::zero(),
+                timestamp,
+            });
+        pending_unbond.asset.amount = pending_unbond.asset.amount.checked_add(asset.amount)?;
         UNBOND.save(
             deps.storage,
             (&info.sender, &denom, timestamp.nanos()),
-            &Bond {
-                asset: asset.clone(),
-                weight: Uint128::zero(),
-                timestamp,
-            },
+            &pending_unbond,
         )?;
 
         // update global values
